@@ -438,7 +438,7 @@ PROPS = {
                         "the ~30 error_or_log call sites inside generated element parsers are reached only as far as the template exercises them"],
         "jobs": [
             {"engine": "E2", "module": "lib", "harness": "h_strict_vs_nonstrict", "functions": ["load_from_string", "parser::ParserState::parse_file", "parser::ParserState::error_or_log", "parser::ParserState::get_string", "parser::ParserState::get_identifier", "parser::ParserState::handle_multiplicity_error", "parser::ParserState::check_block_version_lower", "parser::ParserState::handle_unknown_taggedstruct_tag", "specification::Measurement::parse"],
-             "bound": "17 fault kinds (incl. missing / unknown ASAP2_VERSION, wrong end tag of A2ML / IF_DATA / an ordinary block, PROJECT without MODULE) x {faulty element on one line, first parameter on the next line}, each loaded with strict = true and strict = false; diagnostics must name the line of the faulty token", "timeout": 300, "extra_modules": ["tokenizer"], "validate": 26},
+             "bound": "18 fault kinds (incl. missing / unknown ASAP2_VERSION, wrong end tag of A2ML / IF_DATA / an ordinary block, PROJECT without MODULE, deprecated enum value) x {faulty element on one line, first parameter on the next line}, each loaded with strict = true and strict = false; diagnostics must name the line of the faulty token", "timeout": 300, "extra_modules": ["tokenizer"], "validate": 26},
         ] + [
             {"engine": "E2", "module": "parser", "harness": h, "functions": ["parser::ParserState::handle_unknown_taggedstruct_tag", "parser::ParserState::error_or_log"],
              "bound": "unknown tag + every 1..3-lexeme soup, strictness symbolic: strict never accepts", "timeout": 300, "extra_modules": ["tokenizer"]}
@@ -513,7 +513,7 @@ PROPS = {
             {"engine": "E2", "module": "lib", "harness": "h_c20_documents", "functions": ["specification::*::parse / stringify of every element kind in the sample document and in the all-kinds module", "A2lFile::sort", "A2lFile::sort_new_items"],
              "bound": "sample document strict / non-strict; all-kinds module load, write, sort, write, sort_new_items, write (3 concrete paths)", "timeout": 900, "extra_modules": ["tokenizer"], "max_steps": 80000000, "validate": 3},
             {"engine": "E2", "module": "lib", "harness": "h_c20_faults", "functions": ["specification::Measurement::parse", "parser::ParserState::error_or_log", "load_from_string"],
-             "bound": "17 fault kinds x 2 layouts x strict / non-strict (68 documents)", "timeout": 400, "extra_modules": ["tokenizer"], "max_steps": 4000000, "validate": 10},
+             "bound": "18 fault kinds x 2 layouts x strict / non-strict (72 documents)", "timeout": 400, "extra_modules": ["tokenizer"], "max_steps": 4000000, "validate": 10},
             {"engine": "E2", "module": "lib", "harness": "h_c20_unknown_elements", "functions": ["specification::{RecordLayout,Measurement,Characteristic,AxisDescr,CompuMethod,Module}::parse (TAG_LISTs)", "parser::ParserState::handle_unknown_taggedstruct_tag"],
              "bound": "3 unknown payloads x every insertion point of the C07 document x strict / non-strict", "timeout": 600, "extra_modules": ["tokenizer"], "max_steps": 6000000, "validate": 10},
             {"engine": "E2", "module": "lib", "harness": "h_c20_every_element", "functions": ["specification::*::parse / stringify of every element of the grammar (generated document)", "load_from_string", "A2lFile::write_to_string"],
